@@ -23,7 +23,9 @@ RULE = ("texts: (a) every ordered pair of textual binary operators of the engine
         "expressions (depth <= 5) over atoms, prefix/suffix/binary operators, parentheses, index, list, map, "
         "function and method calls with the full args grammar (empty slots, named arguments), random whitespace; "
         "(c) a few percent of token soups / damaged texts to compare acceptance; thorough adds every sequence of "
-        "<= 3 binary operators x every placement of <= 2 prefix operators and 200 random tables x 2000 texts. "
+        "<= 3 binary operators x every placement of <= 1 prefix operator (exhaustive), every pair x every placement "
+        "of <= 2 prefix operators (exhaustive), 60000 sampled triples with <= 2 prefix operators per engine, and 200 "
+        "random tables x 2000 texts. "
         "Engines: default, legacy, random insert_operator sequences (1-6 calls; new symbols from a pool of "
         "punctuation and words; prefix/suffix/left/right; with and without create_group; aliases). "
         "non-trivial = the text holds >= 2 operator tokens (binary/prefix/suffix/index) outside brackets of each "
@@ -36,10 +38,11 @@ TRUSTED = ["Model/Pratt.v (precedence climbing with the yacc rank rule) stands i
 ASSUMPTIONS = ["allow_delegates=False (the `value(args)` call rule of parser.py:91-101 is not modelled)",
                "no symbol is both a suffix and a binary operator (tables with one are reported as uncovered)",
                "operator tables are edited only through insert_operator; NAME_VALUE_PAIR is never inserted through it"]
-EXPLANATION = ("proof on the model that parse returns the unique tree satisfying the table's local reading, that "
-               "insert_operator keeps groups contiguous, pinned default/legacy tables; differential check of "
-               "parse trees and of insert_operator/_build_operator_table against the model; brute-force wf-tree oracle")
-LEVEL_NOTE = "C02_unique is proved for the core fragment (atoms, prefix, binary, parentheses); see Props/C02.v"
+EXPLANATION = ("proof on the model that parse returns the unique tree (all constructs) satisfying the table's local "
+               "reading, that insert_operator keeps groups contiguous, pinned default/legacy tables; differential check "
+               "of parse trees and of insert_operator/_build_operator_table against the model; brute-force wf-tree oracle")
+LEVEL_NOTE = ("all theorems are about the reference parser Model/Pratt.v; that ply's LALR tables with yacc precedence "
+              "resolution compute the same trees is tested (C, O), not proved")
 ALLOWED_AXIOMS = []
 
 HEADER = "From YV Require Import Model.OpTable Model.Pratt."
@@ -777,7 +780,13 @@ def check_tables(run, engs):
             ins.append(ins_case_term(before, c, after))
             ins_meta.append((e, before, c, after))
             run.count("insert_operator:%s" % ("ValueError" if after is None else ("new group" if c[4] else "join group")))
-        bld.append("{| bc_ops := %s; bc_built := %s |}" % (gen_optables.oplist_term(e.ops), gen_optables.built_term(e.factory)))
+        cov = precedence_covers(e)
+        if not cov:
+            run.fail("violation", "the precedence tuple handed to ply does not mention every operator of the table "
+                     "(a level was dropped by `range(1, len(precedence_dict) + 1)`)",
+                     {"engine": e.spec(), "ops": e.ops, "error": "precedence level dropped"})
+        bld.append("{| bc_ops := %s; bc_built := %s; bc_covered := %s |}" % (
+            gen_optables.oplist_term(e.ops), gen_optables.built_term(e.factory), gal.boolean(cov)))
         bld_meta.append(e)
         run.count("build_table:%s" % ("rejected" if e.built is None else "ok"))
     for i in run.coq_mismatches(HEADER, "ins_case", "ins_case_ok", ins, shard=200):
@@ -793,6 +802,23 @@ def check_tables(run, engs):
     for e in engs:
         if e.built is not None and any(up < 0 and bp for up, bp, _, _ in e.built.operators.values()):
             run.cov["uncovered"].append("table with a suffix+binary symbol: %r" % (e.calls,))
+
+
+def precedence_covers(e):
+    """True iff every operator token name of the live table occurs in the `precedence` attribute of a
+    real Parser object built for it (parser.py:79-88)"""
+    if e.built is None:
+        return True
+    from yaql.language import lexer, parser
+    pr = parser.Parser(lexer.Lexer(e.built), e.built, e.factory)
+    have = {n for level in pr.precedence for n in level[1:]}
+    want = set()
+    for up, bp, name, _ in e.built.operators.values():
+        if up:
+            want.add("UNARY_" + name if bp else name)
+        if bp:
+            want.add(name)
+    return want <= have
 
 
 def split_groups(ops):
@@ -844,6 +870,10 @@ FIXED = [
     ("default", [("->", True, "!!", S, True, None), ("or", True, "xor", L, False, None)]),
     ("legacy", [("=>", True, "|", R, True, None), ("|", True, "~", P, False, None), ("not", False, "!", P, False, "bang")]),
     ("default", [(None, False, "@", L, True, None), ("*", True, "!", L, False, None), ("not", False, "!", P, True, None)]),
+    # a call that must raise ValueError (no binary `not`, no operator `nosuch`), then a valid one
+    ("default", [("not", True, "@", L, False, None), ("nosuch", False, "@", L, True, None), ("and", True, "&", L, False, "amp")]),
+    # a table _build_operator_table must reject: second binary role for `+`
+    ("default", [("or", True, "+", R, False, None)]),
 ]
 
 
@@ -882,10 +912,10 @@ def texts_for(run, eng, idx):
         if not run.quick:
             for t in gen_pairs(eng, rng, 2, 2):
                 yield "pairs+2prefix", t
-            for t in gen_pairs(eng, rng, 3, 0):
-                yield "triples", t
+            for t in gen_pairs(eng, rng, 3, 1):
+                yield "triples+<=1prefix", t
             for t in gen_pairs(eng, rng, 3, 2, sample=60000):
-                yield "triples+prefix", t
+                yield "triples+2prefix (sample)", t
         for t in gen_random(eng, rng, run.n(500, 10000)):
             yield "random", t
     else:
@@ -989,7 +1019,8 @@ def shrink_text(eng, data):
 def replay(run, data):
     d = data["data"]
     if "error" in d:
-        return Eng(d["engine"]["kind"], [tuple(c) for c in d["engine"]["calls"]]).create_error is None
+        e = Eng(d["engine"]["kind"], [tuple(c) for c in d["engine"]["calls"]])
+        return e.create_error is None and precedence_covers(e)
     if "call" in d and "text" not in d:
         e = Eng(d["engine"]["kind"], [])
         before = [tuple(t) for t in d["before"]]
